@@ -13,6 +13,7 @@ import (
 	"regexp"
 	"strings"
 
+	"github.com/lopolopen/shoot/internal/shoot"
 	"github.com/lopolopen/shoot/internal/tools/logx"
 )
 
@@ -54,7 +55,7 @@ func (g *Generator) cookClient(typeName string) {
 
 	found := false
 	for _, f := range g.Pkg().Syntax {
-		ast.Inspect(f, func(n ast.Node) bool {
+		shoot.InspectTopLevel(f, func(n ast.Node) bool {
 			if !g.testNode(typeName, n) {
 				return true
 			}
